@@ -969,7 +969,7 @@ func run(ci any) (res obs.Result) {
 		case "rawhset":
 			w.cls[2].Do(ctx, w.cls[2].B().Hset().Key(key).FieldValue().FieldValue(string(op.F), string(op.V)).Build())
 			lastSaved = nil // another application changed the hash: the round-trip claim no longer applies
-			opTerms = append(opTerms, tOp("ORawHSet", obs.H(op.F), obs.H(op.V)))
+			opTerms = append(opTerms, tOp("ORawHSet", obs.Z(now), obs.H(op.F), obs.H(op.V)))
 			obsTerms = append(obsTerms, tOp("BNone"))
 			sig = append(sig, "raw"+string(op.F))
 		}
